@@ -83,6 +83,7 @@ func cmdRun(args []string) {
 		os.Exit(2)
 	}
 	P := interp.NewProgram(l.Prog, repoPath)
+	P.RepoDir = *repo
 	if *cpuprof != "" {
 		f, _ := os.Create(*cpuprof)
 		pprof.StartCPUProfile(f)
